@@ -113,6 +113,12 @@ pub struct Enc {
 pub struct Model<'a> {
     /// group-inlined description
     pub d: &'a Desc,
+    /// where the last Length fault was found (diagnostics for signatures)
+    pub length_ctx: std::cell::Cell<&'static str>,
+    /// where the last encode fault was found
+    pub enc_ctx: std::cell::Cell<&'static str>,
+    /// collect mode: encode faults are recorded here and encoding continues
+    pub enc_collect: std::cell::RefCell<Option<Vec<(EncFault, &'static str)>>>,
 }
 
 #[derive(Debug, Clone, PartialEq, Eq)]
@@ -164,7 +170,31 @@ pub fn enum_tag_value(d: &Desc, enum_id: &str, tag: &str) -> Option<u64> {
 
 impl<'a> Model<'a> {
     pub fn new(d: &'a Desc) -> Model<'a> {
-        Model { d }
+        Model { d, length_ctx: std::cell::Cell::new("none"), enc_ctx: std::cell::Cell::new("none"), enc_collect: std::cell::RefCell::new(None) }
+    }
+
+    /// report an encode fault: aborts the encoding, or records it in collect mode
+    fn ef(&self, ctx: &'static str, f: EncFault) -> Result<(), EncFault> {
+        self.enc_ctx.set(ctx);
+        if let Some(v) = self.enc_collect.borrow_mut().as_mut() {
+            v.push((f, ctx));
+            return Ok(());
+        }
+        Err(f)
+    }
+
+    /// every fault the reference finds in a value (the bytes are meaningless when non-empty)
+    pub fn encode_faults(&self, type_id: &str, v: &Val) -> Vec<(EncFault, &'static str)> {
+        *self.enc_collect.borrow_mut() = Some(vec![]);
+        let r = std::panic::catch_unwind(std::panic::AssertUnwindSafe(|| self.encode(type_id, v)));
+        let got = self.enc_collect.borrow_mut().take().unwrap_or_default();
+        let _ = r;
+        got
+    }
+
+    fn length_fault(&self, faults: &mut BTreeSet<Fault>, ctx: &'static str) {
+        self.length_ctx.set(ctx);
+        faults.insert(Fault::Length);
     }
 
     pub fn decl(&self, id: &str) -> &'a Decl {
@@ -317,7 +347,7 @@ impl<'a> Model<'a> {
                         ElemTy::Scalar(w) | ElemTy::Enum(_, w) | ElemTy::Custom(_, w) => {
                             let x = e.int();
                             if x > max_of_width(*w) {
-                                return Err(EncFault::ScalarRange);
+                                self.ef(if [8, 16, 32, 64].contains(w) { "array-element:native-width" } else { "array-element:non-native-width" }, EncFault::ScalarRange)?;
                             }
                             let kind = if *w == 8 && matches!(ety, ElemTy::Scalar(_)) { ChunkKind::Bytes } else { ChunkKind::Word };
                             self.put_word(&mut one, x, (*w / 8) as usize, kind, &format!("{}.{}[]", decl.id, id));
@@ -346,7 +376,7 @@ impl<'a> Model<'a> {
                         FieldKind::Scalar { width, .. } => {
                             let x = inner.int();
                             if x > max_of_width(*width) {
-                                return Err(EncFault::ScalarRange);
+                                self.ef("optional-scalar", EncFault::ScalarRange)?;
                             }
                             self.put_word(&mut out, x, (*width / 8) as usize, ChunkKind::Word, &format!("{}.{}", decl.id, id));
                         }
@@ -383,7 +413,7 @@ impl<'a> Model<'a> {
                                 implied.insert(if present { *cv } else { 1 - *cv });
                             }
                             if implied.len() != 1 {
-                                return Err(EncFault::Inconsistent);
+                                self.ef("shared-flag", EncFault::Inconsistent)?;
                             }
                             (*implied.iter().next().unwrap(), BitKind::Flag, id.clone())
                         } else if let Some(c) = cs.get(id) {
@@ -391,7 +421,7 @@ impl<'a> Model<'a> {
                         } else {
                             let x = rec.get(id).unwrap_or_else(|| panic!("missing field {id}")).int();
                             if x > max_of_width(*width) {
-                                return Err(EncFault::ScalarRange);
+                                self.ef("scalar", EncFault::ScalarRange)?;
                             }
                             (x, BitKind::Scalar, id.clone())
                         }
@@ -423,14 +453,14 @@ impl<'a> Model<'a> {
                             arrays.get(field_id).map(|a| a.1 as u64).unwrap_or(0)
                         };
                         if n > max_of_width(*width) {
-                            return Err(EncFault::SizeOverflow);
+                            self.ef(if field_id.starts_with('_') { "payload-size-field" } else { "array-size-field" }, EncFault::SizeOverflow)?;
                         }
                         (n, BitKind::Size, format!("_size_({field_id})"))
                     }
                     FieldKind::Count { field_id, width } => {
                         let n = arrays.get(field_id).map(|a| a.0.len() as u64).unwrap_or(0);
                         if n > max_of_width(*width) {
-                            return Err(EncFault::CountOverflow);
+                            self.ef(if [8, 16, 32, 64].contains(width) { "count-field:native-width" } else { "count-field:narrow" }, EncFault::CountOverflow)?;
                         }
                         (n, BitKind::Count, format!("_count_({field_id})"))
                     }
@@ -438,10 +468,10 @@ impl<'a> Model<'a> {
                         let (encs, _) = arrays.get(field_id).expect("elementsize target");
                         let first = encs.first().map(|e| e.bytes.len()).unwrap_or(0);
                         if encs.iter().any(|e| e.bytes.len() != first) {
-                            return Err(EncFault::ElemSize);
+                            self.ef("elementsize-field", EncFault::ElemSize)?;
                         }
                         if first as u64 > max_of_width(*width) {
-                            return Err(EncFault::SizeOverflow);
+                            self.ef("elementsize-field", EncFault::SizeOverflow)?;
                         }
                         (first as u64, BitKind::ElemSize, format!("_elementsize_({field_id})"))
                     }
@@ -449,7 +479,7 @@ impl<'a> Model<'a> {
                 };
                 if w < 64 && val >= (1u64 << w) {
                     // fixed / enum constants always fit in a well-formed description
-                    return Err(EncFault::ScalarRange);
+                    self.ef("bit-field", EncFault::ScalarRange)?;
                 }
                 acc |= (val as u128) << acc_bits;
                 members.push(BitMember { name, kind, shift: acc_bits, width: w });
@@ -481,7 +511,7 @@ impl<'a> Model<'a> {
                     };
                     if let Some(p) = pad {
                         if total > p {
-                            return Err(EncFault::SizeOverflow);
+                            self.ef("array-padding", EncFault::SizeOverflow)?;
                         }
                     }
                     for e in encs {
@@ -489,8 +519,8 @@ impl<'a> Model<'a> {
                     }
                     if let Some(p) = pad {
                         let start = out.bytes.len();
-                        out.bytes.extend(std::iter::repeat(0).take(p - total));
-                        out.chunks.push(Chunk { start, len: p - total, kind: ChunkKind::Padding, owner: format!("{}.{}", decl.id, id) });
+                        out.bytes.extend(std::iter::repeat(0).take(p.saturating_sub(total)));
+                        out.chunks.push(Chunk { start, len: p.saturating_sub(total), kind: ChunkKind::Padding, owner: format!("{}.{}", decl.id, id) });
                     }
                 }
                 FieldKind::Padding { .. } => {}
@@ -502,7 +532,7 @@ impl<'a> Model<'a> {
                     Some(DeclKind::Custom { width: Some(w), .. }) => {
                         let x = rec.get(id).unwrap().int();
                         if x > max_of_width(*w) {
-                            return Err(EncFault::ScalarRange);
+                            self.ef("custom-field", EncFault::ScalarRange)?;
                         }
                         self.put_word(&mut out, x, (*w / 8) as usize, ChunkKind::Word, &format!("{}.{}", decl.id, id));
                     }
@@ -543,6 +573,7 @@ impl<'a> Model<'a> {
     /// In collect mode decoding continues after recoverable faults so that the *set* of fault
     /// kinds is reported.
     pub fn decode(&self, type_id: &str, b: &[u8]) -> Result<(Val, usize), BTreeSet<Fault>> {
+        self.length_ctx.set("none");
         let mut faults = BTreeSet::new();
         let r = self.decode_type(type_id, b, &mut faults);
         match r {
@@ -552,6 +583,7 @@ impl<'a> Model<'a> {
     }
 
     pub fn decode_full(&self, type_id: &str, b: &[u8]) -> Result<Val, BTreeSet<Fault>> {
+        self.length_ctx.set("none");
         let mut faults = BTreeSet::new();
         let r = self.decode_type(type_id, b, &mut faults);
         match r {
@@ -646,12 +678,21 @@ impl<'a> Model<'a> {
         Some((bits / 8) as usize)
     }
 
-    fn decode_elem(&self, ety: &ElemTy, b: &[u8], faults: &mut BTreeSet<Fault>) -> Option<(Val, usize)> {
+    fn decode_elem(&self, ety: &ElemTy, b: &[u8], faults: &mut BTreeSet<Fault>, site: u8) -> Option<(Val, usize)> {
+        // site: 0 = array element, 1 = optional field, 2 = typedef field
         match ety {
             ElemTy::Scalar(w) | ElemTy::Custom(_, w) => {
                 let n = (*w / 8) as usize;
                 if b.len() < n {
-                    faults.insert(Fault::Length);
+                    let custom = matches!(ety, ElemTy::Custom(..));
+                    self.length_fault(faults, match (site, custom) {
+                        (0, false) => "array-element:scalar",
+                        (0, true) => "array-element:custom",
+                        (1, false) => "optional:scalar",
+                        (1, true) => "optional:custom",
+                        (_, true) => "typedef:custom",
+                        _ => "typedef:scalar",
+                    });
                     return None;
                 }
                 Some((Val::Int(self.get_word(&b[..n])), n))
@@ -659,7 +700,11 @@ impl<'a> Model<'a> {
             ElemTy::Enum(e, w) => {
                 let n = (*w / 8) as usize;
                 if b.len() < n {
-                    faults.insert(Fault::Length);
+                    self.length_fault(faults, match site {
+                        0 => "array-element:enum",
+                        1 => "optional:enum",
+                        _ => "typedef:enum",
+                    });
                     return None;
                 }
                 let x = self.get_word(&b[..n]);
@@ -708,7 +753,7 @@ impl<'a> Model<'a> {
                     FieldKind::Typedef { type_id, .. } => self.elem_ty(&Elem::Type(type_id.clone())),
                     _ => panic!("bad optional field"),
                 };
-                let (v, n) = self.decode_elem(&ety, &b[pos..], faults)?;
+                let (v, n) = self.decode_elem(&ety, &b[pos..], faults, 1)?;
                 pos += n;
                 rec.insert(id, Val::Opt(Some(Box::new(v))));
                 i += 1;
@@ -735,7 +780,7 @@ impl<'a> Model<'a> {
                 assert!(bits % 8 == 0, "bit-field group not aligned in {}", decl.id);
                 let n = (bits / 8) as usize;
                 if b.len() - pos < n {
-                    faults.insert(Fault::Length);
+                    self.length_fault(faults, "bit-field-group");
                     return None;
                 }
                 let mut acc: u128 = 0;
@@ -802,7 +847,7 @@ impl<'a> Model<'a> {
                     let avail: &[u8] = match pad {
                         Some(p) => {
                             if b.len() - pos < p {
-                                faults.insert(Fault::Length);
+                                self.length_fault(faults, "array-padding-region");
                                 return None;
                             }
                             &b[pos..pos + p]
@@ -833,11 +878,11 @@ impl<'a> Model<'a> {
                             match esize {
                                 Some(es) if static_elem.is_none() => {
                                     if region.len() - p < es {
-                                        faults.insert(Fault::Length);
+                                        self.length_fault(faults, "array-elementsize-chunk");
                                         return None;
                                     }
                                     let chunk = &region[p..p + es];
-                                    let (v, used) = self.decode_elem(&ety, chunk, faults)?;
+                                    let (v, used) = self.decode_elem(&ety, chunk, faults, 0)?;
                                     if used != es {
                                         faults.insert(Fault::TrailingInArray);
                                         return None;
@@ -849,7 +894,7 @@ impl<'a> Model<'a> {
                                     }
                                 }
                                 _ => {
-                                    let (v, used) = self.decode_elem(&ety, &region[p..], faults)?;
+                                    let (v, used) = self.decode_elem(&ety, &region[p..], faults, 0)?;
                                     elems.push(v);
                                     p += used;
                                     if used == 0 && count.is_none() {
@@ -870,7 +915,7 @@ impl<'a> Model<'a> {
                                 // a count larger than the region can hold can never succeed
                                 let min_elem = esize.filter(|_| static_elem.is_none()).or(static_elem).unwrap_or(0);
                                 if min_elem > 0 && (*c as u128) * (min_elem as u128) > avail.len() as u128 {
-                                    faults.insert(Fault::Length);
+                                    self.length_fault(faults, "array-count");
                                     return None;
                                 }
                                 if min_elem == 0 && *c > (avail.len() as u64 + 1) * 4 && static_elem.is_none() && esize.is_none() {
@@ -883,12 +928,12 @@ impl<'a> Model<'a> {
                                     _ => 0,
                                 };
                                 if *s < modifier {
-                                    faults.insert(Fault::Length);
+                                    self.length_fault(faults, "array-size-modifier");
                                     return None;
                                 }
                                 let s = (*s - modifier) as usize;
                                 if avail.len() < s {
-                                    faults.insert(Fault::Length);
+                                    self.length_fault(faults, "array-size");
                                     return None;
                                 }
                                 let unit = esize.filter(|_| static_elem.is_none()).or(static_elem);
@@ -914,7 +959,7 @@ impl<'a> Model<'a> {
                                     None => {
                                         let tail = self.static_tail(decl, i).unwrap_or(0);
                                         if avail.len() < tail {
-                                            faults.insert(Fault::Length);
+                                            self.length_fault(faults, "array-tail");
                                             return None;
                                         }
                                         &avail[..avail.len() - tail]
@@ -941,7 +986,7 @@ impl<'a> Model<'a> {
                 }
                 FieldKind::Typedef { id, type_id } => {
                     let ety = self.elem_ty(&Elem::Type(type_id.clone()));
-                    let (v, n) = self.decode_elem(&ety, &b[pos..], faults)?;
+                    let (v, n) = self.decode_elem(&ety, &b[pos..], faults, 2)?;
                     pos += n;
                     rec.insert(id.clone(), v);
                 }
@@ -953,19 +998,19 @@ impl<'a> Model<'a> {
                             _ => 0,
                         };
                         if *s < modifier {
-                            faults.insert(Fault::Length);
+                            self.length_fault(faults, "payload-size-modifier");
                             return None;
                         }
                         let s = (*s - modifier) as usize;
                         if b.len() - pos < s {
-                            faults.insert(Fault::Length);
+                            self.length_fault(faults, "payload-size");
                             return None;
                         }
                         s
                     } else {
                         let tail = self.static_tail(decl, i).unwrap_or(0);
                         if b.len() - pos < tail {
-                            faults.insert(Fault::Length);
+                            self.length_fault(faults, "payload-tail");
                             return None;
                         }
                         b.len() - pos - tail
@@ -1040,6 +1085,29 @@ impl<'a> Model<'a> {
             }
         }
         Some(false)
+    }
+
+    /// For each matching direct child: does a case with a non-empty constraint tuple match?
+    pub fn specialize_matches_detail(&self, parent_id: &str, pv: &Val) -> Vec<(String, bool)> {
+        let uses_size = self.specialize_uses_size(parent_id).unwrap_or(false);
+        let prec = pv.rec();
+        let plen = match prec.get("payload") {
+            Some(Val::Bytes(b)) => b.len() as u64,
+            _ => 0,
+        };
+        let mut out: Vec<(String, bool)> = vec![];
+        for (id, cs, size) in self.specialize_cases(parent_id) {
+            let fields_ok = cs.iter().all(|(k, v)| prec.get(k).map(|x| x.int() == *v).unwrap_or(false));
+            let size_ok = !uses_size || size.map(|s| s == plen).unwrap_or(true);
+            if fields_ok && size_ok {
+                let constrained = !cs.is_empty() || (uses_size && size.is_some());
+                match out.iter_mut().find(|x| x.0 == id) {
+                    Some(e) => e.1 |= constrained,
+                    None => out.push((id, constrained)),
+                }
+            }
+        }
+        out
     }
 
     /// Which direct children match the parent value. The caller decides what a multiple match
